@@ -31,6 +31,9 @@ pub enum PKind {
     Adversary,
     /// get through a ReadOnlyCache laid over the writers' directory
     RoGet,
+    /// a writer that stalled for hours between creating its temp file (in the cache's own
+    /// `.kismet_temp`) and publishing it with set
+    StaleSet,
 }
 
 #[derive(Clone, Debug, PartialEq, Eq, Hash, Serialize, Deserialize)]
@@ -46,6 +49,9 @@ pub struct Layout {
     pub preload_reader: Vec<u8>,
     /// start with the cache directory (and shard directories) missing
     pub dirs_missing: bool,
+    /// stacked layouts: configure a byte-equality consistency checker
+    #[serde(default)]
+    pub checker: bool,
 }
 
 #[derive(Clone, Debug, PartialEq, Eq, Hash, Serialize, Deserialize)]
@@ -61,6 +67,9 @@ pub enum Sched {
     /// freeze participant `frozen` forever after `at` of its steps, run the others alone one after
     /// the other; the frozen one is released only when everybody else is done
     Freeze { frozen: usize, at: u32 },
+    /// random-walk prefix, then only participant `solo` runs (everybody else frozen where they
+    /// are) until it is done; the others are released afterwards
+    PrefixSolo { prefix: Vec<u8>, solo: usize },
 }
 
 pub const SIZES_C: &[usize] = &[1, 17, 4096, 8193, 70_000];
@@ -118,7 +127,7 @@ pub fn prepare(root: &Path, l: &Layout) {
 pub fn open_handle(root: &Path, l: &Layout) -> Handle {
     let w = writer_spec(l);
     if l.kind >= 2 {
-        open_stack(root, &StackSpec { writer: Some(w), readers: vec![DirSpec::Plain { dir: "R".into(), cap: 0 }], checker: Checker::None, auto_sync: false })
+        open_stack(root, &StackSpec { writer: Some(w), readers: vec![DirSpec::Plain { dir: "R".into(), cap: 0 }], checker: if l.checker { Checker::ByteEq } else { Checker::None }, auto_sync: false })
     } else {
         open_dir(root, &w)
     }
@@ -210,6 +219,25 @@ fn make_decide(strategy: &Sched, n: usize, monitor: Option<Box<dyn FnMut() + Sen
                 }
                 p
             }
+            Sched::PrefixSolo { prefix, solo } => {
+                if pos < prefix.len() {
+                    let cur = v.last.filter(|l| runnable.contains(l));
+                    let b = prefix[pos];
+                    pos += 1;
+                    match cur {
+                        Some(c) if b == 0 => c,
+                        Some(c) => {
+                            let others: Vec<usize> = runnable.iter().copied().filter(|x| *x != c).collect();
+                            if others.is_empty() { c } else { others[(b as usize - 1) % others.len()] }
+                        }
+                        None => runnable[(b as usize) % runnable.len()],
+                    }
+                } else if runnable.contains(solo) {
+                    *solo
+                } else {
+                    runnable[0]
+                }
+            }
             Sched::Freeze { frozen, at } => {
                 if runnable.contains(frozen) && taken[*frozen] < *at {
                     *frozen
@@ -265,7 +293,11 @@ pub fn monitor_dirs(root: &Path, l: &Layout) -> Result<(), String> {
 fn perform(root: &Path, l: &Layout, h: &Handle, ro: &Option<Handle>, tid: usize, i: usize, p: &POp, held: &mut Vec<(usize, KeySpec, std::fs::File)>) -> (Ret, Option<Val>) {
     let ks = key_for(p.key);
     let size = SIZES_C[p.size as usize % SIZES_C.len()];
-    let val = Val::new(&ks.name, tid as u32 + 1, i as u32, size);
+    let mut val = Val::new(&ks.name, tid as u32 + 1, i as u32, size);
+    if l.checker && l.kind >= 2 && l.preload_reader.contains(&(p.key % 3)) && matches!(p.kind, PKind::Ensure | PKind::Promote) {
+        // with a consistency checker the populated value must agree with the read-only copy
+        val = Val::new(&ks.name, 61, (p.key % 3) as u32, 4096);
+    }
     let mk = |kind: OpKind| Op { kind, key: ks.clone(), val: val.clone(), pop: Pop::Value, nosy: false, link_from: None };
     match p.kind {
         PKind::Set => (exec(root, h, &mk(OpKind::Set)).0, Some(val)),
@@ -290,6 +322,31 @@ fn perform(root: &Path, l: &Layout, h: &Handle, ro: &Option<Handle>, tid: usize,
             } else {
                 (exec(root, handle, &mk(OpKind::Get)).0, None)
             }
+        }
+        PKind::StaleSet => {
+            // the temp file was created two hours ago in the cache's own temp directory ...
+            let dir = writer_spec(l).candidate_dirs(root, &ks)[0].join(".kismet_temp");
+            let path = dir.join(format!("stalled-{}-{}", tid, i));
+            shim::bypass(|| {
+                std::fs::create_dir_all(&dir).unwrap();
+                std::fs::write(&path, val.encode()).unwrap();
+            });
+            let old = now_ns() - 2 * 3_600_000_000_000;
+            let _ = set_times_ns(&path, old, old);
+            // ... and only now does the writer get to publish it
+            shim::yield_now("stalled writer resumes");
+            let r = std::panic::catch_unwind(std::panic::AssertUnwindSafe(|| match h {
+                Handle::Plain(c) => c.set(&ks.name, &path),
+                Handle::Sharded(c) => c.set(ks.key(), &path),
+                Handle::Stack(c, _) => c.set(ks.key(), &path),
+                Handle::Ro(..) => Ok(()),
+            }));
+            let ret = match r {
+                Ok(Ok(())) => Ret::Unit,
+                Ok(Err(e)) => Ret::Err(e.into()),
+                Err(_) => Ret::Panic("set panicked".into()),
+            };
+            (ret, Some(val))
         }
         PKind::Maintain => {
             let name = format!("m{}", tid);
@@ -433,6 +490,7 @@ pub fn gen_layout(kinds: Vec<u8>, caps: Vec<usize>) -> impl Strategy<Value = Lay
         preload_writer: pw,
         preload_reader: if kind >= 2 { pr } else { vec![] },
         dirs_missing,
+        checker: false,
     })
 }
 
